@@ -286,10 +286,13 @@ def run_case(ctx, case, rng):
         if not p.start() or not p.auth():
             ctx.inconclusive("handshake failed")
             return
+        cm.diverge_ids(p, rng)
         c, s = p.session()
         if s is None:
             ctx.inconclusive("no server channel")
             return
+        if c.chanid != c.remote_chanid:
+            ctx.count("channels_with_local_id_ne_remote_id")
         x, y = (c, s) if subj == "c" else (s, c)
         tx = p.tc if subj == "c" else p.ts
         yside = "s" if subj == "c" else "c"
